@@ -1,6 +1,7 @@
 (* C06 -- parse then serialize is lossless and reaches a fixpoint. Statements only. *)
 From Coq Require Import List NArith Arith.
-From SonicV Require Import Model.SerRoundTrip Model.Pretty.
+From Coq Require Import Sorting.Sorted Sorting.Permutation.
+From SonicV Require Import Spec.SortKeys Model.SerRoundTrip Model.Pretty.
 Import ListNotations.
 Open Scope N_scope.
 
@@ -23,3 +24,10 @@ Theorem pretty_is_layout : forall (scalar key : Type) pscalar pkey (v : Pretty.j
   exists h, Pretty.run scalar key pscalar pkey st (Pretty.calls scalar key v)
     = {| cur := cur st; hasv := h; out := out st ++ Pretty.pretty scalar key pscalar pkey (cur st) v |}.
 Proof. intros scalar key pscalar pkey v st. exact (formatter_is_layout scalar key pscalar pkey v st). Qed.
+
+(* key sorting: ascending byte-wise key order, a permutation of the members (nothing added, dropped
+   or changed), for every member list *)
+Theorem sorted_keys_ascending : forall (A : Type) (key : A -> list N) l, Sorted (le_key A key) (isort A key l).
+Proof. exact isort_sorted. Qed.
+Theorem sorted_keys_same_members : forall (A : Type) (key : A -> list N) l, Permutation l (isort A key l).
+Proof. exact isort_perm. Qed.
